@@ -46,6 +46,7 @@ type chainCase struct {
 	ActFirst bool      `json:"action_set_before_the_middleware,omitempty"`                // Action(...) is called first and the middleware is installed afterwards with Handlers(...): the action stays
 	Cleared  bool      `json:"middleware_stack_cleared_first,omitempty"`                  // two middleware are installed and then Handlers() is called without arguments (documented to clear the stack) before the real set-up
 	BadSetup bool      `json:"failed_setup_calls,omitempty"`                              // after set-up, Use(h, 42, h) and NotFound(h, "oops") are attempted and fail loudly (recovered): nothing of them may be left behind
+	Before   string    `json:"before_handlers,omitempty"`                                 // Flame.Before handlers that decline (return false): decline | decline-103 (one of them sends "103 Early Hints" first). Whoever declines has ended nothing: the chain runs as if they were not there
 	Method   string    `json:"method,omitempty"`                                          // GET (default) | HEAD | POST: for HEAD no body byte is forwarded, yet a body write still counts as "written"
 }
 
@@ -162,6 +163,7 @@ func genChainCase(r *rand.Rand) *chainCase {
 	}
 	c.SharedMW = len(c.MW) >= 2 && r.Intn(5) == 0
 	c.BadSetup = r.Intn(6) == 0
+	c.Before = []string{"", "", "", "", "decline", "decline-103"}[r.Intn(6)]
 	c.Scribble = r.Intn(5) == 0
 	c.Cleared = r.Intn(8) == 0
 	c.ActFirst = c.Action != nil && r.Intn(4) == 0
@@ -347,10 +349,16 @@ type chainSpy struct {
 	tr     *[]string
 	status int
 	body   strings.Builder
+	hints  int   // "103 Early Hints" sent while *early is set: an interim response, as on a net/http connection - nothing of the final response is decided by it
+	early  *bool // set by the harness's Before handler around its WriteHeader(103)
 }
 
 func (s *chainSpy) Header() http.Header { return s.hdr }
 func (s *chainSpy) WriteHeader(c int) {
+	if s.early != nil && *s.early && c == http.StatusEarlyHints && s.status == 0 {
+		s.hints++
+		return
+	}
 	if s.status == 0 {
 		s.status = c
 	}
@@ -379,6 +387,7 @@ type chainExec struct {
 	entered      map[int]int
 	cancel       gocontext.CancelFunc
 	reenter      string
+	early        bool // the Before handler is sending its interim response right now
 }
 
 func (x *chainExec) mk(i int, h *hspec) flamego.Handler {
@@ -599,6 +608,20 @@ func judgeChain(w *core.W, c *chainCase) {
 			return h
 		})
 	}
+	if c.Before != "" {
+		f.Before(func(http.ResponseWriter, *http.Request) bool { return false })
+		f.Before(func(rw http.ResponseWriter, _ *http.Request) bool {
+			if c.Before == "decline-103" {
+				rw.Header().Add("Link", "</app.css>; rel=preload")
+				x.early = true
+				rw.WriteHeader(http.StatusEarlyHints)
+				x.early = false
+				rw.Header().Del("Link")
+			}
+			return false
+		})
+		w.Count("before-handlers:" + c.Before)
+	}
 	idx := 0
 	junk := func(id int) flamego.Handler {
 		return func() { x.tr = append(x.tr, fmt.Sprintf("left-behind-handler-%d-ran", id)) }
@@ -740,13 +763,13 @@ func judgeChain(w *core.W, c *chainCase) {
 		func() {
 			defer func() { _ = recover() }()
 			ptr := []string{}
-			f.ServeHTTP(&chainSpy{hdr: http.Header{}, tr: &ptr}, (&http.Request{Method: c.method(), URL: &url.URL{Path: path + "/probe"}, Header: http.Header{}}).WithContext(pctx))
+			f.ServeHTTP(&chainSpy{hdr: http.Header{}, tr: &ptr, early: &x.early}, (&http.Request{Method: c.method(), URL: &url.URL{Path: path + "/probe"}, Header: http.Header{}}).WithContext(pctx))
 		}()
 		pcancel()
 		x.tr, x.entered, x.reenter, x.cancel = nil, map[int]int{}, "", cancel
 		w.Count("sibling-route-with-shared-handler-prefix")
 	}
-	spy := &chainSpy{hdr: http.Header{}, tr: &x.tr}
+	spy := &chainSpy{hdr: http.Header{}, tr: &x.tr, early: &x.early}
 	req := (&http.Request{Method: c.method(), URL: &url.URL{Path: target}, Header: http.Header{}, RequestURI: target}).WithContext(ctx)
 	var pan interface{}
 	func() {
